@@ -340,7 +340,10 @@ def explore(mod, tier, seed, nproc):
     confirmed, unconfirmed = [], []
     for ck, vs in byclass.items():
         ok = None
-        for v in vs[:MAX_CONFIRM_PER_CLASS]:
+        tries = list(vs[:MAX_CONFIRM_PER_CLASS])
+        if len(vs) > MAX_CONFIRM_PER_CLASS:     # a representative may depend on what its shard ran before it: try some more, evenly spread
+            tries += vs[MAX_CONFIRM_PER_CLASS::max(1, (len(vs) - MAX_CONFIRM_PER_CLASS) // 9)][:9]
+        for v in tries:
             keys = []
             for _ in range(2):
                 r = fresh(_isolated_replay, (modname, v['case'], tier, seed))
